@@ -2,13 +2,17 @@
 
 
 def run(ctx):
-    ctx.lean_obligations(["SV.Props.C02", "SV.Props.C02e2e"], drivers=["svdriver_c02"])
+    ctx.lean_obligations(["SV.Props.C02", "SV.Props.C02e2e", "SV.Props.C02x"], drivers=["svdriver_c02"])
     quick = ctx.tier == "quick"
     b = ctx.go_test_binary("fs/layer", "h_layer_c02")
     if b:
         ctx.correspond(b, "TestVerifC02", "svdriver_c02", "c02",
                        env={"VERIF_N": 60 if quick else 700, "VERIF_OPS": 40 if quick else 70},
                        timeout=900 if quick else 3000)
+        # histories with a storage fault of the LOCAL caches (file part of every cache commit fails for a
+        # while, at the chunk cache and/or the compressed-blob cache); oracle only, see SV.Props.C02x
+        ctx.correspond(b, "TestVerifC02StoreFault", "svdriver_c02", "c02storefault",
+                       env={"VERIF_N": 8 if quick else 150}, timeout=600 if quick else 1800)
     bdb = ctx.go_test_binary("containerd-stargz-grpc/db", "h_db_c02", module_dir="cmd")
     if bdb:
         ctx.correspond(bdb, "TestVerifC02DB", "svdriver_c02", "c02db",
@@ -29,7 +33,13 @@ def run(ctx):
              "passthrough and async cache commit as oracle-only streams) -> random histories of read / chunk lookup / "
              "lookup+getattr+readlink / readdir / getxattr+listxattr / prefetch-store with an offset filter / "
              "background fetch / eviction / truncated cache entry / loss of the compressed cache / registry faults / "
-             "concurrent readers / a second reader scheduled between a reader's cache hit and its use of the entry "
+             "concurrent readers / STORAGE FAULTS OF THE LOCAL CACHES (stream TestVerifC02StoreFault: the shard directories of "
+             "the chunk cache and/or the compressed-blob cache are occupied by regular files so that the file part of every "
+             "cache commit fails after its on-memory part, at the three store sites reader.cacheData / readAndCache / "
+             "blob.cacheChunkData, first store and re-store of a key still in the LRU, cache files wiped or not; then the "
+             "directory is repaired, other chunks are stored and every chunk is read again whole and in parts; one P and no "
+             "GC so that sync.Pool reuse is deterministic; 12 hand-written + random scenarios; oracle-only) / "
+             "a second reader scheduled between a reader's cache hit and its use of the entry "
              "(small on-memory LRU in front of the directory cache; oracle-only) / FUSE passthrough: node.Open merges the "
              "file into one backing file (merge buffers of 2-4 chunks, 1-4 workers, direct-mode directory cache, chunks "
              "pre-cached by partial reads or prefetch-stores, merged file dropped and rebuilt after evictions) and the "
